@@ -38,6 +38,9 @@ func c11Graphs() []c11Graph {
 		{"cycle-in-loop", map[string]string{"p.vuego": `<div v-for="x in items">` + inc("p.vuego") + `</div>`}, true},
 		{"cycle-in-vif", map[string]string{"p.vuego": `<div v-if="items">` + inc("p.vuego") + `</div>`}, true},
 		{"cycle-through-component-tag", map[string]string{"p.vuego": `<loop-er></loop-er>`, "components/LoopEr.vuego": `<loop-er></loop-er>`}, true},
+		{"slot-twice-inplace-template-content", map[string]string{"p.vuego": `<template include="m.vuego"><template v-html="items"></template></template>`, "m.vuego": `<div class="marquee"><slot></slot><slot></slot></div>`}, false},
+		{"slot-looped-inplace-template-content", map[string]string{"p.vuego": `<template include="m.vuego"><template v-html="items"></template></template>`, "m.vuego": `<ul><slot v-for="n in items"></slot></ul>`}, false},
+		{"slot-twice-inplace-template-and-text", map[string]string{"p.vuego": `<template include="m.vuego">x<template v-html="items"></template></template>`, "m.vuego": `<section><slot></slot><slot></slot></section>`}, false},
 		{"diamond-no-cycle", map[string]string{"p.vuego": inc("a.vuego") + inc("b.vuego"), "a.vuego": inc("c.vuego"), "b.vuego": inc("c.vuego"), "c.vuego": "<i>c</i>"}, false},
 		{"deep-chain-60", nil, false},
 		{"layout-cycle", map[string]string{"p.vuego": "---\nlayout: a\n---\n<p>x</p>", "layouts/a.vuego": "---\nlayout: b\n---\n<div v-html=\"content\"></div>", "layouts/b.vuego": "---\nlayout: a\n---\n<div v-html=\"content\"></div>"}, true},
